@@ -40,7 +40,8 @@ TInit == Init /\ t \in 1..Len(Runs) /\ l = 1 /\ pendCtrlC = FALSE /\ owedInt = F
 Silent ==
   \/ /\ UNCHANGED aux
      /\ \/ \E w \in Workers :
-             \/ (W_Loop(w) /\ wpc'[w] = "create")                   \* took the next operation
+             \/ (W_Loop(w) /\ wpc'[w] = "take")                     \* passed the stop check of the worker loop
+             \/ (W_Take(w) /\ wpc'[w] = "create")                   \* took the next operation
              \/ (W_Create(w) /\ faulted' = faulted)                   \* built the test
              \/ (W_Done(w) /\ ~caseSeen[w])                            \* Hypothesis is done with the operation
              \/ ((Runs[t].unique \/ Runs[t].fault) /\ W_Send(w))      \* outcome from the cache / exception before the send point
@@ -76,7 +77,7 @@ Logged ==
           \/ IsQ("ScF") /\ W_Finish(w) /\ wop[w] = Line.op /\ wout[w] = Line.st
           \/ IsQ("INT") /\ W_Intr(w)
           \/ Is("SEND") /\ W_Send(w) /\ wop[w] = Line.op
-          \/ Is("WEXIT") /\ W_Loop(w) /\ wpc'[w] = "dead"
+          \/ Is("WEXIT") /\ (W_Loop(w) \/ W_Take(w)) /\ wpc'[w] = "dead"
           \/ Is("FAULT") /\ Line.site = "builder.create_test" /\ W_Create(w) /\ faulted' /\ ~faulted) /\ AuxSame
      \/ Is("FAULT") /\ Line.site # "builder.create_test" /\ UNCHANGED vars /\ AuxSame     \* its effect is the error outcome of a W_Send
 
